@@ -18,7 +18,11 @@ for d in sorted(glob.glob('seeded/C*-*/meta.json')):
 static = open('tools/seed_section.md').read()
 table = '\n'.join(['| Seed | Files touched (py4hw/) | Caught by its property\'s check | Also caught by (quick tier of) | Repository tests with the change |', '|---|---|---|---|---|'] + rows)
 s = open('DESIGN.md').read()
+tail = ''
 if '\n### 8.5' in s:
-    s = s[:s.index('\n### 8.5')]
-open('DESIGN.md', 'w').write(s.rstrip('\n') + '\n\n' + static.replace('@@TABLE@@', table) + '\n')
+    i = s.index('\n### 8.5')
+    m = re.search(r'\n### 8\.[6-9]', s[i:])
+    tail = s[i + m.start():] if m else ''
+    s = s[:i]
+open('DESIGN.md', 'w').write(s.rstrip('\n') + '\n\n' + static.replace('@@TABLE@@', table).rstrip('\n') + '\n' + tail)
 print(len(rows), 'seeds')
